@@ -162,6 +162,11 @@ func c20(x *mon.Ctx) {
 		retryCase{timeout: time.Second, cap: 20 * time.Millisecond, failures: -1, retryAfter: "3"},
 		retryCase{timeout: time.Second, cap: 100 * time.Millisecond, failures: 2, retryAfter: "date"},
 		retryCase{timeout: 300 * time.Millisecond, cap: time.Millisecond, failures: 5, retryAfter: "1"})
+	// the same configuration under a long and a short timeout (see the schedule-independence oracle below)
+	cases = append(cases,
+		retryCase{timeout: 30 * time.Second, cap: 10 * time.Second, failures: 1},
+		retryCase{timeout: 6 * time.Second, cap: 10 * time.Second, failures: 1},
+		retryCase{timeout: 7 * time.Second, cap: 30 * time.Second, failures: 1})
 	// maximum retry delays that are not on the doubling ladder 4 s, 8 s, 16 s ... (a few seconds of wall clock, run in parallel)
 	cases = append(cases,
 		retryCase{6 * time.Second, 2200 * time.Millisecond, 1, 0, 0, ""},
@@ -273,6 +278,32 @@ func c20(x *mon.Ctx) {
 			x.Sample(map[string]any{"case": param, "attempt_times": fmt.Sprint(head(r.attempts, 8)), "attempts": n, "returned_at": r.ret.String(), "succeeded": succeeded, "timer_lateness": r.late.String()})
 		}
 	}
+	// schedule independence: the waits before a retry do not depend on the timeout. If a configuration reaches its success at
+	// time t under a longer timeout, it must reach it under every shorter timeout that leaves room (t + 25 % + slack), too —
+	// "Timeout is how long to retry before failure".
+	pairs := 0
+	for a, ca := range cases {
+		for b, cb := range cases {
+			if ca.cap != cb.cap || ca.failures != cb.failures || ca.failures < 0 || ca.slowSuccess != cb.slowSuccess || ca.slowFailure != cb.slowFailure || ca.retryAfter != cb.retryAfter || ca.timeout <= cb.timeout {
+				continue
+			}
+			ra, rb := results[a], results[b]
+			if ra.err != nil || ra.ret+ra.ret/4+slack >= cb.timeout {
+				continue
+			}
+			pairs++
+			ok := rb.err == nil
+			param := fmt.Sprintf("cap=%v failures=%d timeout=%v-vs-%v", ca.cap, ca.failures, ca.timeout, cb.timeout)
+			margin := cb.timeout - ra.ret - ra.ret/4
+			if !ok && (rb.late >= margin/4 || ra.late >= margin/4) {
+				x.Inconclusive(fmt.Sprintf("%s: gave up under the shorter timeout, but timers were late by %v / %v (margin %v)", param, ra.late, rb.late, margin))
+			} else if !ok {
+				x.Violation("retry", param, fmt.Sprintf("with a timeout of %v the getter reaches the success after %v; with a timeout of %v (same maximum delay, same wrapped getter) it gives up after %v and %d attempts: it stopped retrying although the timeout had room for the retry", ca.timeout, ra.ret, cb.timeout, rb.ret, len(rb.attempts)), "none", param)
+			}
+			x.Note("retry/same-schedule-under-shorter-timeout", param, ok, false, true)
+		}
+	}
+	x.Require("retry/same-schedule-under-shorter-timeout", 3, 0, 3)
 	x.Require("retry/fail-forever", 0, 20, 20)
 	x.Require("retry/k-failures-then-success", 30, 5, 60)
 }
